@@ -516,7 +516,8 @@ def gen_seed_streams(prop, tier):
         sz = os.path.getsize(os.path.join(d, f))
         if key not in by_class or (sz, f) < by_class[key]:
             by_class[key] = (sz, f)
-    reps = sorted(by_class.values())
+    # (streams converted to the legacy 2.2 kd-tree layout, names l*, are few and always belong to the dense set)
+    reps = sorted(by_class.values(), key=lambda x: (not x[1].startswith("l"), x[0], x[1]))
     cap = 260 if tier == "quick" else 2000
     light_cap = 700 if tier == "quick" else 4000
     keep = set(f for _, f in reps[:cap])
